@@ -17,7 +17,7 @@ from .events import (
     StreamClosed,
 )
 from .http_stream import HTTPStream
-from .ws_stream import WSStream
+from .ws_stream import ASGIWebsocketState, WSStream
 from ..config import Config
 from ..events import Closed, Event, RawData, Updated
 from ..typing import AppWrapper, ConnectionState, H11SendableEvent, TaskGroup, WorkerContext
@@ -181,6 +181,12 @@ class H11Protocol:
             await self._send_h11_event(h11.Data(data=event.data))
         elif isinstance(event, EndBody):
             await self._send_h11_event(h11.EndOfMessage())
+            if getattr(self.stream, "state", None) is ASGIWebsocketState.HTTPCLOSED:
+                # A WebSocket handshake the app has refused with a response
+                # of its own, now complete. That is all there is to the
+                # stream (which does not say so itself), an app that waits
+                # for its disconnect message is not to wait for ever.
+                await self._maybe_recycle()
         elif isinstance(event, Data):
             await self.send(RawData(data=event.data))
         elif isinstance(event, EndData):
